@@ -134,7 +134,7 @@ ReadNext ==
     /\ IF position = 0                                                          \* :240
          THEN /\ out' = Reply("read", 0, "eof", 0)
               /\ UNCHANGED <<position, bufferStart, bufNil>>
-         ELSE LET r == ReadNextLine(position) IN
+         ELSE \E r \in {ReadNextLine(position)} :     \* (a LET, evaluated once: see Probe)
               /\ bufferStart' = r.bs
               /\ bufNil' = FALSE
               /\ position' = IF r.lineIdx = 0 THEN 0 ELSE r.lineIdx - 1         \* :250-256
@@ -170,9 +170,11 @@ SeekLands(p) ==
 Probe ==
     /\ pc = "probe"
     /\ UNCHANGED <<bufferStart, bufNil>>
-    /\ LET r  == ReadProbeLine(sProbe)                                          \* :144
-           ts == TimestampOf(r.lineIdx, r.lineEnd)                              \* :159
-       IN
+    \* "LET r == .. ts == .. IN", written as quantification over singletons: TLC
+    \* re-evaluates a LET definition at every use inside an action, and r is
+    \* used a dozen times (measured: 3x faster trace validation).
+    /\ \E r \in {ReadProbeLine(sProbe)} :                                        \* :144
+       \E ts \in {TimestampOf(r.lineIdx, r.lineEnd)} :                          \* :159
        \* :145-147.  Only a file of 0 bytes gets here: readProbeLine's Read
        \* returns io.EOF and seekTS passes it on -- an error that is none of
        \* the three classes (known finding C20:empty-file-seek-eof; the
